@@ -91,9 +91,9 @@ HARNESSES = [
     dict(name="store_completed", file="store_completed.c", label=L2, timeout=600, cases=_k()),
     dict(name="get_next", file="get_next.c", label=L2, timeout=600, cases=_k()),
     dict(name="try_dequeue", file="try_dequeue.c", label=L2, timeout=600, cases=_k()),
-    dict(name="submit", file="submit.c", label=L2, timeout=900, malloc_fail=True, weight=8,
+    dict(name="submit", file="submit.c", label=L2, timeout=1800, malloc_fail=True, weight=8,
          cases=_k(t3="thorough")),
-    dict(name="dequeue", file="dequeue.c", label=L2, timeout=900, weight=8,
+    dict(name="dequeue", file="dequeue.c", label=L2, timeout=1800, weight=8,
          cases=_k(t3="thorough")),
     dict(name="get_status", file="small.c", label=L2, timeout=600,
          cases=_k({"OP_GET_STATUS": None}, {"OP_GET_STATUS": None})),
@@ -113,7 +113,7 @@ HARNESSES = [
     dict(name="frame_next", file="frame_worker.c", label=L2, timeout=600, mode="dfcc",
          enforce="cs_get_next_work_item", native=False,
          cases=_k({"FRAME_NEXT": None}, {"FRAME_NEXT": None})),
-    dict(name="worker_proc", file="worker_proc.c", label=L2, timeout=900,
+    dict(name="worker_proc", file="worker_proc.c", label=L2, timeout=2400, weight=9,
          fp={"fun": "stub_fun"},
          cases=[dict(id="k2w0", defines=dict(K2, WIDX=0, MAXWAIT=0), unwind=8, label=L2, tier="quick"),
                 dict(id="k2w1", defines=dict(K2, WIDX=1, MAXWAIT=0), unwind=8, label=L2, tier="quick"),
